@@ -49,6 +49,10 @@ def settings_fill(path, frame_qual):
                         cm.attr_chain(s.value[1]) == 'self.local_settings' \
                         and s.value[2] == s.key:
                     filled = True
+            # every setting goes in: nothing is decided per item
+            if any(s2.kind == 'assume' and s2.in_loop and
+                   s2.frame == frame_qual for s2 in path.events):
+                filled = False
             out.append((e.obj, filled))
     return out
 
@@ -278,6 +282,10 @@ def run(ctx, eng):
                'a copy refreshed at ACK time')
     cm.include(ctx, eng, 'C03', {'FLOW.init'},
                'likewise for the server\'s view of the client\'s window')
+    cm.include(ctx, eng, 'C11', {'OWN.ack-caller'},
+               'the header and the preface are both filled from '
+               'local_settings: they agree because nothing makes pending '
+               'values current in between (only a SETTINGS frame does)')
     cm.include(ctx, eng, 'C10', {'ARITH.limit'},
                'the server can answer stream 1 (and the client receive the '
                'answer) whatever MAX_CONCURRENT_STREAMS was handed over: the '
